@@ -374,6 +374,8 @@ func ext۰reflect۰Value۰Pointer(fr *frame, args []value) value {
 		return reflect.ValueOf(v.entries()).Pointer()
 	case map[value]value:
 		return reflect.ValueOf(v).Pointer()
+	case *omap:
+		return uintptr(unsafe.Pointer(v))
 	case *ssa.Function:
 		return uintptr(unsafe.Pointer(v))
 	case *closure:
